@@ -356,7 +356,11 @@ func (r *runner) account(sc Scenario, out *Outcome) (unknown []Violation) {
 		s.Samples = append(s.Samples, data)
 	}
 	if r.logHash {
-		s.LogHashes = append(s.LogHashes, fmt.Sprintf("%016x:%016x", shapeHash(sc), out.LogHash))
+		th := uint64(0)
+		if out.Rep != nil {
+			th = out.Rep.TraceHash
+		}
+		s.LogHashes = append(s.LogHashes, fmt.Sprintf("%016x:%016x:%016x:%d", shapeHash(sc), out.LogHash, th, len(out.Violations)))
 	}
 	for _, v := range out.Violations {
 		if what, ok := r.known[v.sig()]; ok {
